@@ -12,3 +12,4 @@ import Hyeong.Props.C06
 #print axioms HyN.C06.constructors_canonical
 #print axioms HyN.C06.nan_absorbing
 #print axioms HyN.C06.display_canon
+#print axioms HyN.C06.limb_level_refines
